@@ -25,6 +25,7 @@ class Session:
         self.repo = repo or REPO
         self.I = Interp(self.repo)
         self.real_t = DType(real_t)
+        self.I.ext.working_precision = self.real_t
         self._spne = None
 
     # ---------------------------------------------------------------- modules
